@@ -29,6 +29,7 @@ static const char *const stop_clauses[] = { "result-status", "result-timeout", "
                                             "one-slot-reached", "two-slots-reached", "three-slots-reached", "action-error", NULL };
 
 struct cfg {
+  int expired; /* the deadline has already passed when the stop sequence starts */
   int prefail; /* a failed start carrying a deadline precedes the real one on the same handle */
   int a[3], t[3];
   int deadline; /* ms, 0 none */
@@ -88,27 +89,58 @@ static void build_triples(void)
   }
 }
 
-/* per triple: deadline {none, 3} x child behaviour 4 x (initial state, via) in {run/stop, run/destroy, exited/stop, reaped/stop, exited/destroy} */
-#define NVAR (2 * NCB * 5)
+/* per triple: deadline {none, 3, 3 and already expired} x child behaviour 4 x (initial state, via) in {run/stop, run/destroy, exited/stop,
+ * reaped/stop, exited/destroy}. The expired variant only exists for triples that look at the deadline (a DEADLINE timeout, or all-noop). */
+static long prefix[2][2][8001]; /* [property: 0 = C07 (stop), 1 = C15 (destroy)][tier] */
+static const int nsv[2] = { 3, 2 };
 
-static long stop_n(int tier)
+static int triple_uses_deadline(int tier, long tr)
 {
-  build_triples();
-  return (long) ntriples[tier] * NVAR;
+  int all_noop = 1, dl = 0;
+  for (int i = 0; i < 3; i++) {
+    if (acts[triples[tier][tr][i]] != A_NOOP) all_noop = 0;
+    if (acts[triples[tier][tr][i]] != A_NOOP && acts[triples[tier][tr][i]] != A_BAD && tmos[triples[tier][tr][3 + i]] == -2) dl = 1;
+  }
+  return all_noop || dl;
 }
 
-static void decode(int tier, long cfg, struct cfg *c)
+static void build_prefix(void)
 {
+  static int done;
+  if (done) return;
+  done = 1;
   build_triples();
-  long tr = cfg / NVAR, v = cfg % NVAR;
+  for (int m = 0; m < 2; m++)
+    for (int tier = 0; tier < 2; tier++) {
+      prefix[m][tier][0] = 0;
+      for (long t = 0; t < ntriples[tier]; t++) prefix[m][tier][t + 1] = prefix[m][tier][t] + (triple_uses_deadline(tier, t) ? 3 : 2) * NCB * nsv[m];
+    }
+}
+
+static long stop_n_mode(int m, int tier)
+{
+  build_prefix();
+  return prefix[m][tier][ntriples[tier]];
+}
+
+static long stop_n(int tier) { return stop_n_mode(0, tier); }
+
+static void decode(int m, int tier, long cfg, struct cfg *c)
+{
+  build_prefix();
+  long lo = 0, hi = ntriples[tier];
+  while (hi - lo > 1) { long mid = (lo + hi) / 2; if (prefix[m][tier][mid] <= cfg) lo = mid; else hi = mid; }
+  long tr = lo, v = cfg - prefix[m][tier][lo];
+  int nd = triple_uses_deadline(tier, tr) ? 3 : 2;
   for (int i = 0; i < 3; i++) { c->a[i] = acts[triples[tier][tr][i]]; c->t[i] = tmos[triples[tier][tr][3 + i]]; }
-  c->deadline = (v % 2) ? 3 : 0;
-  v /= 2;
+  c->deadline = (v % nd) ? 3 : 0;
+  c->expired = (v % nd) == 2;
+  v /= nd;
   c->cb = (int) (v % NCB);
   v /= NCB;
-  static const int isv[5][2] = { { IS_RUNNING, VIA_STOP }, { IS_RUNNING, VIA_DESTROY }, { IS_EXITED, VIA_STOP }, { IS_REAPED, VIA_STOP }, { IS_EXITED, VIA_DESTROY } };
-  c->is = isv[v][0];
-  c->via = isv[v][1];
+  static const int isv[2][3][2] = { { { IS_RUNNING, VIA_STOP }, { IS_EXITED, VIA_STOP }, { IS_REAPED, VIA_STOP } }, { { IS_RUNNING, VIA_DESTROY }, { IS_EXITED, VIA_DESTROY }, { 0, 0 } } };
+  c->is = isv[m][v][0];
+  c->via = isv[m][v][1];
   c->faults = 0;
 }
 
@@ -207,7 +239,8 @@ static void evaluate(int kind, int r, const char *where)
       return;
     }
     /* (iii) nothing is sent once the child has been seen exited: a signal strictly after the exit instant is too late */
-    if (sigt[i] > te) {
+    /* (the first slot's action cannot know about an exit that happened before the call: only a wait finds out) */
+    if (sigt[i] > te && exp_slot[i] > 0) {
       vk_violation(prop, "signal-after-exit", key, "signal %d sent at +%lld ms although the child had exited at +%lld ms", sigs[i],
                    (long long) (sigt[i] - t0), (long long) (te - t0));
       return;
@@ -349,8 +382,8 @@ static void run_cfg(const char *prop_unused)
   }
   reproc_stop_actions sa = { { (REPROC_STOP) C.a[0], C.t[0] }, { (REPROC_STOP) C.a[1], C.t[1] }, { (REPROC_STOP) C.a[2], C.t[2] } };
   char sb[100];
-  snprintf(key, sizeof key, "h_stop|%s|stop=%s|deadline=%d|child=%s|state=%s", C.via == VIA_DESTROY ? "destroy" : "stop",
-           hx_stop_str(sa, sb, sizeof sb), C.deadline, cb_names[C.cb], C.prefail ? "running-after-failed-start" : is_names[C.is]);
+  snprintf(key, sizeof key, "h_stop|%s|stop=%s|deadline=%d%s|child=%s|state=%s", C.via == VIA_DESTROY ? "destroy" : "stop",
+           hx_stop_str(sa, sb, sizeof sb), C.deadline, C.expired ? "(expired)" : "", cb_names[C.cb], C.prefail ? "running-after-failed-start" : is_names[C.is]);
   hx_desc("%s", key);
   /* violation keys name the call path, the child behaviour and the handle state, not the triple: one defect, one key */
   snprintf(key, sizeof key, "h_stop|%s|child=%s|state=%s", C.via == VIA_DESTROY ? "destroy" : "stop", cb_names[C.cb],
@@ -395,6 +428,7 @@ static void run_cfg(const char *prop_unused)
       if (w != CH->expect_status) vk_finish(OUT_INFRA, "setup wait returned %d", w);
     }
   }
+  if (C.expired) vk_advance(5);
   vk_faults_armed = 1;
   t0 = vk_now();
   if (C.via == VIA_STOP) {
@@ -428,7 +462,7 @@ static void run_cfg(const char *prop_unused)
 
 static void c07_run(int tier, long cfg)
 {
-  decode(tier, cfg, &C);
+  decode(0, tier, cfg, &C);
   if (tier && (cfg % 7) == 0) C.faults = 1;
   run_cfg("C07");
 }
@@ -436,14 +470,12 @@ static void c07_run(int tier, long cfg)
 /* C15 adds the non-running handle states */
 enum { D_NULL, D_NEVER_STARTED, D_FAILED_START, D_INVALID_OPTIONS, ND };
 #define NPREFAIL (NCB * 3 * 2)
-static long c15_n(int tier) { return stop_n(tier) + ND + NPREFAIL; }
+static long c15_n(int tier) { return stop_n_mode(1, tier) + ND + NPREFAIL; }
 static void c15_run(int tier, long cfg)
 {
-  long n = stop_n(tier);
+  long n = stop_n_mode(1, tier);
   if (cfg < n) {
-    decode(tier, cfg, &C);
-    /* C15 looks at the destroy half of the space; the stop half belongs to C07 */
-    if (C.via != VIA_DESTROY) { C.via = VIA_DESTROY; if (C.is == IS_REAPED) C.is = IS_RUNNING; }
+    decode(1, tier, cfg, &C); /* the destroy half of the space; the stop half belongs to C07 */
     run_cfg("C15");
     return;
   }
